@@ -306,7 +306,8 @@ def wrap_multi(mediator, mpm):
     pipe_idx = {id(p): hidx(h) for p, h in mediator._event_handlers.items()}
     mediator._event_handlers_state = LogDict(mediator._event_handlers_state, "st",
                                              lambda p: pipe_idx[id(p)], lambda s: STAGE[s.name])
-    mediator._out_states = LogDict(mediator._out_states, "os", hidx, lambda v: digest(ser_nodes(v)))
+    mediator._out_states = LogDict(mediator._out_states, "os", hidx,
+                                   lambda v: "None" if v is None else digest(ser_nodes(v)))
     real_conn = mpm.connection
 
     class ConnShim(object):
